@@ -2,16 +2,17 @@
 # Regenerate the harness go.mod from /repo's go.mod so that dependency versions follow /repo.
 set -e
 cd "$(dirname "$0")"
+REPO=${REPO:-/repo}
 {
   echo "module verifharness"
   echo
-  sed -n '/^go /p' /repo/go.mod
+  sed -n '/^go /p' $REPO/go.mod
   echo
   echo "require github.com/simpleiot/simpleiot v0.0.0"
   echo
-  echo "replace github.com/simpleiot/simpleiot => /repo"
+  echo "replace github.com/simpleiot/simpleiot => $REPO"
   echo
-  awk '/^require \(/{p=1} p{print} /^\)/{if(p){p=0;print ""}} /^require [^(]/{print}' /repo/go.mod
-  awk '/^replace /{print}' /repo/go.mod | grep -v simpleiot/simpleiot || true
+  awk '/^require \(/{p=1} p{print} /^\)/{if(p){p=0;print ""}} /^require [^(]/{print}' $REPO/go.mod
+  awk '/^replace /{print}' $REPO/go.mod | grep -v simpleiot/simpleiot || true
 } > go.mod
-cp /repo/go.sum go.sum
+cp $REPO/go.sum go.sum
